@@ -14,7 +14,7 @@ import shutil
 from hypothesis import strategies as st
 
 from vf import cli, pins
-from vf.core import VERIF_DIR, HarnessError, HypPart, Oracle
+from vf.core import VERIF_DIR, HarnessError, HypPart, Oracle, case_digest, reorder
 from vf.gen import dbenum
 from vf.gen import keys as K
 from vf.ref import hab_check as H
@@ -481,6 +481,7 @@ def _run_in(wd: str, case, o: Oracle, state: dict) -> None:
     from spsdk.utils.schema_validator import check_config
 
     b = _materialise(case, wd)
+    b.cfg = reorder(b.cfg, int(case_digest(case)[:8], 16))  # the keys of every mapping in an order picked with the case
     if cli.selected(case, CLI_ONE_IN):
         import yaml
 
